@@ -5,6 +5,7 @@ import (
 	"encoding/json"
 	"errors"
 	"net/url"
+	"strconv"
 
 	cstate "0chain.net/chaincore/chain/state"
 	"0chain.net/chaincore/smartcontract"
@@ -12,7 +13,9 @@ import (
 	"0chain.net/chaincore/state"
 	"0chain.net/chaincore/transaction"
 	"0chain.net/core/encryption"
+	"0chain.net/smartcontract/partitions"
 	"github.com/0chain/common/core/currency"
+	"github.com/tinylib/msgp/msgp"
 )
 
 // ProbeAddress is the address of the harness' probe contract: an HONEST contract (it only moves its own wallet's tokens,
@@ -36,7 +39,117 @@ type ProbeInput struct {
 	ThenFail bool        `json:"then_fail"` // return an error AFTER queuing the transfers (chargeable failure after partial work)
 }
 
+// ProbePartStep is one operation on the probe contract's own partitions list (the real partitions library on the real state
+// context): "add", "update", "remove", "get", "exist", "size".
+type ProbePartStep struct {
+	Op   string `json:"op"`
+	ID   string `json:"id"`
+	Data string `json:"data"`
+}
+
+// ProbePartsInput is the input of the probe contract's "parts" function: a sequence of partition operations, then optionally
+// no Save (objects read through the cache were mutated in place and dropped) and optionally a chargeable failure after the work.
+type ProbePartsInput struct {
+	List     int             `json:"list"` // which of the probe's lists (partition sizes 2, 3, 5)
+	Steps    []ProbePartStep `json:"steps"`
+	SkipSave bool            `json:"skip_save"`
+	ThenFail bool            `json:"then_fail"`
+}
+
+// ProbePartSizes are the partition sizes of the probe lists.
+var ProbePartSizes = []int{2, 3, 5}
+
+// ProbePartsName names a probe list.
+func ProbePartsName(i int) string { return ProbeAddress + ":verif-parts:" + string(rune('a'+i)) }
+
+// ProbeItem is the item type stored in the probe lists.
+type ProbeItem struct {
+	ID   string
+	Data string
+}
+
+func (i *ProbeItem) GetID() string { return i.ID }
+func (i *ProbeItem) Msgsize() int   { return 16 + len(i.ID) + len(i.Data) }
+func (i *ProbeItem) MarshalMsg(b []byte) ([]byte, error) {
+	b = msgp.AppendArrayHeader(b, 2)
+	b = msgp.AppendString(b, i.ID)
+	return msgp.AppendString(b, i.Data), nil
+}
+func (i *ProbeItem) UnmarshalMsg(b []byte) ([]byte, error) {
+	n, b, err := msgp.ReadArrayHeaderBytes(b)
+	if err != nil || n != 2 {
+		return b, errors.New("probe item: bad header")
+	}
+	if i.ID, b, err = msgp.ReadStringBytes(b); err != nil {
+		return b, err
+	}
+	i.Data, b, err = msgp.ReadStringBytes(b)
+	return b, err
+}
+
+func (p *probeSC) parts(input []byte, balances cstate.StateContextI) (string, error) {
+	var in ProbePartsInput
+	if err := json.Unmarshal(input, &in); err != nil {
+		return "", err
+	}
+	if in.List < 0 || in.List >= len(ProbePartSizes) {
+		return "", errors.New("probe: no such list")
+	}
+	ps, err := partitions.CreateIfNotExists(balances, ProbePartsName(in.List), ProbePartSizes[in.List])
+	if err != nil {
+		return "", err
+	}
+	out := ""
+	for _, st := range in.Steps {
+		var e error
+		switch st.Op {
+		case "add":
+			e = ps.Add(balances, &ProbeItem{ID: st.ID, Data: st.Data})
+		case "update":
+			e = ps.UpdateItem(balances, &ProbeItem{ID: st.ID, Data: st.Data})
+		case "remove":
+			e = ps.Remove(balances, st.ID)
+		case "get":
+			var it ProbeItem
+			if _, e = ps.Get(balances, st.ID, &it); e == nil {
+				out += st.ID + "=" + it.Data + ";"
+			}
+		case "exist":
+			var ok bool
+			if ok, e = ps.Exist(balances, st.ID); e == nil && ok {
+				out += st.ID + "+;"
+			}
+		case "size":
+			var n int
+			if n, e = ps.Size(balances); e == nil {
+				out += "n=" + strconv.Itoa(n) + ";"
+			}
+		default:
+			return "", errors.New("probe: unknown partition op")
+		}
+		if e != nil {
+			if partitions.ErrItemNotFound(e) || partitions.ErrItemExist(e) {
+				out += st.Op + ":" + st.ID + ":refused;"
+				continue
+			}
+			return "", e
+		}
+	}
+	if !in.SkipSave {
+		if err := ps.Save(balances); err != nil {
+			return "", err
+		}
+	}
+	if in.ThenFail {
+		return "", errors.New("probe: requested failure after partition work")
+	}
+	return "probe parts " + out, nil
+}
+
 func (p *probeSC) Execute(t *transaction.Transaction, fn string, input []byte, balances cstate.StateContextI) (string, error) {
+	if fn == "parts" {
+		return p.parts(input, balances)
+	}
 	if fn != "run" {
 		return "", errors.New("probe: unknown function")
 	}
@@ -71,7 +184,7 @@ func (p *probeSC) GetExecutionStats() map[string]interface{} { return p.SmartCon
 func (p *probeSC) GetName() string                            { return "verifprobe" }
 func (p *probeSC) GetAddress() string                         { return ProbeAddress }
 func (p *probeSC) GetCostTable(cstate.StateContextI) (map[string]int, error) {
-	return map[string]int{"run": 1}, nil
+	return map[string]int{"run": 1, "parts": 1}, nil
 }
 
 func registerProbe() {
